@@ -16,12 +16,15 @@ head = sh("git -C /repo rev-parse HEAD").stdout.strip()
 sh(f"git -C {wt} checkout -q --detach {head}")
 out = {}
 skipped = []
-for d in sorted(os.listdir(os.path.join(ROOT, "seeded"))):
-    pd = os.path.join(ROOT, "seeded", d, "patch.diff")
+items = [("seeded", d) for d in sorted(os.listdir(os.path.join(ROOT, "seeded")))]
+if os.path.isdir(os.path.join(ROOT, "benign")):
+    items += [("benign", d) for d in sorted(os.listdir(os.path.join(ROOT, "benign")))]
+for kind_dir, d in items:
+    pd = os.path.join(ROOT, kind_dir, d, "patch.diff")
     if not os.path.isfile(pd):
         continue
     prop = d.split("-")[0]
-    if notes.get(d, {}).get("not_decided"):
+    if kind_dir == "seeded" and notes.get(d, {}).get("not_decided"):
         continue
     sh(f"git -C {wt} reset -q --hard; git -C {wt} clean -fdq")
     if sh(f"git -C {wt} apply {pd}").returncode != 0:
@@ -75,8 +78,14 @@ for d in sorted(os.listdir(os.path.join(ROOT, "seeded"))):
     sh(f"git -C {wt} reset -q --hard; git -C {wt} clean -fdq")
     if not ok:
         skipped.append((d, "edits do not reproduce the patch")); continue
-    meta = json.load(open(os.path.join(ROOT, "seeded", d, "meta.json")))
-    out.setdefault(prop, []).append({"id": f"seeded-{d}", "kind": "break", "file": fl[0]["file"], "files": fl, "rule": None,
-                                     "what": (meta.get("summary") or "")[:200]})
+    meta = json.load(open(os.path.join(ROOT, kind_dir, d, "meta.json")))
+    if kind_dir == "seeded":
+        out.setdefault(prop, []).append({"id": f"seeded-{d}", "kind": "break", "file": fl[0]["file"], "files": fl, "rule": None,
+                                         "what": (meta.get("summary") or "")[:200]})
+    else:
+        # a behaviour-preserving refactoring must leave EVERY check silent: it becomes a benign twin of every property
+        for i in range(1, 21):
+            out.setdefault(f"C{i:02d}", []).append({"id": f"refactoring-{d}", "kind": "benign", "file": fl[0]["file"], "files": fl, "rule": None,
+                                                    "what": (meta.get("summary") or "")[:200]})
 json.dump(out, open(os.path.join(ROOT, "selftest", "seeded_corpus.json"), "w"), indent=1)
 print("entries:", sum(len(v) for v in out.values()), "skipped:", skipped)
